@@ -49,3 +49,24 @@ Proof. vm_compute. reflexivity. Qed.
 Lemma hash_stable c ops h a : aget h (hs_addr (hrun c ops)) = Some a ->
   step (hrun c ops) (Alloc h) = (hrun c ops, OUnit a, []).
 Proof. intros H. cbn [step]. rewrite H. reflexivity. Qed.
+
+(* in_range under the guard "the CIDR is written with its network address": the address is a host
+   address of the pool, for every subscriber id *)
+From Verif Require Import Proofs.GeometryProofs.
+Lemma hash_in_range_partial c h : h_ppl c <= 30 -> h_base c < 4294967296 -> h_base c mod h_size c = 0 ->
+  hash_usable c (hash_addr c h) = true.
+Proof.
+  intros Hp Hb Hal. unfold hash_usable, hash_addr, h_net. rewrite Hal, N.sub_0_r.
+  assert (Hsz : 4 <= h_size c).
+  { unfold h_size. change 4 with (2 ^ 2). apply N.pow_le_mono_r; lia. }
+  assert (Hh : h_hosts c = h_size c - 2) by reflexivity.
+  set (off := hash_string (sub_id h) mod h_hosts c + 1).
+  assert (Hoff : 1 <= off /\ off <= h_size c - 2).
+  { subst off. pose proof (N.mod_lt (hash_string (sub_id h)) (h_hosts c) ltac:(lia)). lia. }
+  rewrite (nocarry_is_addition (h_base c) off (32 - h_ppl c)); [|lia|exact Hb|exact Hal|unfold h_size in *; lia].
+  apply andb_true_intro. split; apply N.leb_le; lia.
+Qed.
+
+Example hash_in_range_guard_satisfiable :
+  h_ppl c24 <= 30 /\ h_base c24 < 4294967296 /\ h_base c24 mod h_size c24 = 0.
+Proof. vm_compute. repeat split; discriminate. Qed.
